@@ -13,7 +13,39 @@ def cmp_c05(case, go, m, s):
     return m == "explained", go.startswith("ok") and s == "ok"
 
 
+def cmp_c05_all(case, go, m, s):
+    # Premises of the composition theorem, checked on Joe scenarios with real replayers: exactly-once/in-order
+    # delivery (C03) and exact resumption (C04) — if either breaks, events are lost or duplicated across reconnects.
+    if case.startswith("JOE "):
+        corr = m == "accept"
+        if s == "ok":
+            return corr, True
+        if not s.startswith("viol "):
+            return corr, False
+        mine = [x for x in s[5:].split(" ;; ") if x.startswith("C03:") or x.startswith("C04:")]
+        return corr, not mine
+    if case.startswith("VALID ") or case.startswith("FINITE "):
+        # another premise: what the real replayers replay for a presented ID, over histories that grow, wrap,
+        # collect and shrink the buffer. Only the outcome of Replay calls without injected Send/Flush failures is
+        # judged here (Put results, slots and failing subscribers are C08/C09/C18's subject).
+        ops = case.split(" ")[-1].split(";")
+        g, sp = go.split(";"), s.split(";")
+        if len(g) != len(ops) or len(sp) != len(ops):
+            return go == m, go == s
+        ok = True
+        for o, a, b in zip(ops, g, sp):
+            f = o.split(":")
+            if f[0] == "R" and f[3] == "-" and f[4] == "0" and a != b:
+                ok = False
+        return go == m or ok, ok
+    return cmp_c05(case, go, m, s)
+
+
 def hist(case, go):
+    if case.startswith("JOE "):
+        return ["op:JOE"]
+    if case.startswith("VALID ") or case.startswith("FINITE "):
+        return ["op:" + case.split(" ")[0]]
     a = case.split(" ")
     out = ["replayer:" + a[1]]
     plan = a[5] if len(a) > 5 else "-"
@@ -31,15 +63,20 @@ def hist(case, go):
 
 def register(PROPS):
     PROPS["C05"] = {
-        "gens": [{"id": "C05", "quick": 500, "thorough": 20000, "thorough_seeds": 8}],
-        "compare": cmp_c05,
+        "gens": [{"id": "C05", "quick": 500, "thorough": 20000, "thorough_seeds": 8},
+                 {"id": "C04", "quick": 2500, "thorough": 60000, "thorough_seeds": 8},
+                 {"id": "C09", "quick": 12000, "thorough": 300000, "thorough_seeds": 8},
+                 {"id": "C08", "quick": 8000, "thorough": 200000, "thorough_seeds": 8}],
+        "compare": cmp_c05_all,
         "on_crash": "property",
-        "nontrivial": lambda c, g: "resumed=0" not in g,
+        "nontrivial": lambda c, g: ("R=S" in g) if c[0] in "VF" else ("resumed=0" not in g and (not c.startswith("JOE ") or ":ws" in g)),
         "shrink_candidates": lambda case: iter(()),
         "rule": "scenarios: real sse.Server + Joe + Finite/Valid replayer (manual/automatic IDs) behind httptest on loopback, real "
                 "Client connection with 1 ms backoff, concurrent publishers, a connection plan cutting the response after k bytes "
                 "(FIN or RST, any offset incl. inside headers and inside an event) or ending the handler after the n-th Send; "
-                "non-trivial = at least one session resumed with a Last-Event-ID; distinct by case line",
+                "non-trivial = at least one session resumed with a Last-Event-ID; distinct by case line. Plus, as premises of the "
+                "composition: Joe scenarios with resuming subscribers (judged on the C03/C04 predicates) and Put/Replay/GC/clock "
+                "histories of both real replayers (judged on what non-failing Replay calls send)",
         "hist": hist,
         "assumptions": [
             "net/http framing, chunking and request-context cancellation on write errors are observed, not modelled",
